@@ -22,6 +22,9 @@ var substs = []subst{
 	{"media/global.go", map[string]string{"github.com/cnotch/scheduler": "verif/harness/simsched"}},
 	{"av/format/hls/playlist.go", map[string]string{"github.com/cnotch/scheduler": "verif/harness/simsched"}},
 	{"service/service.go", map[string]string{"github.com/cnotch/scheduler": "verif/harness/simsched"}},
+	{"utils/io.go", map[string]string{"os": "verif/harness/simfs"}},
+	{"provider/auth/json.go", map[string]string{"os": "verif/harness/simfs", "io/ioutil": "verif/harness/simfs"}},
+	{"provider/route/json.go", map[string]string{"os": "verif/harness/simfs", "io/ioutil": "verif/harness/simfs"}},
 }
 
 // buildOverlay rewrites the import specs of the listed files of the *current*
